@@ -130,7 +130,16 @@ pub fn run_watch(scratch: &Scratch, texts: &[String], rename_saves: &[bool], pin
         run.spawn_error = Some("write".into());
         return run;
     }
-    let mut child = match Command::new(lace_bin())
+    let mut command = Command::new(lace_bin());
+    unsafe {
+        use std::os::unix::process::CommandExt;
+        command.pre_exec(|| {
+            // The watcher never ends by itself: it must not outlive a harness that is killed
+            libc::prctl(libc::PR_SET_PDEATHSIG, libc::SIGKILL);
+            Ok(())
+        });
+    }
+    let mut child = match command
         .arg("watch")
         .arg("f.asm")
         .current_dir(&dir)
